@@ -2,6 +2,7 @@ import OsmVerif.Oracle.Util
 import OsmVerif.Model.Pbf
 import OsmVerif.Model.PbfScan
 import OsmVerif.Model.PbfOffsets
+import OsmVerif.Model.PbfFraming
 /-! Parser of the structured-file tokens and printer of scanned objects (the same text the harness prints). -/
 namespace OsmVerif.Oracle.Pbf
 open OsmVerif.Oracle OsmVerif.Model.Pbf OsmVerif.Model.PbfScan
@@ -299,6 +300,38 @@ def handleC09 (toks : List String) : String :=
         | some tr => " ".intercalate (s!"n={tr.length}" :: tr.map fun (_, c, p) => s!"{c}/{p}")
     | _, _, none, _ => "model-undefined"
     | _, _, _, _ => "bad-op"
+  | _ => "bad-op"
+
+/-! ### C06: cut and damaged streams (the specification: `specConv`, prefix of intact blocks then an error) -/
+
+def showCut (hdrOk : Bool) (objs : List Obj) (ok : Bool) : String :=
+  " ".intercalate ([if hdrOk then "hdr=ok" else "hdr=none"] ++ objs.map showObj ++ [if ok then "end=ok" else "end=err"])
+
+def handleC06 (toks : List String) : String :=
+  match toks with
+  | "cut" :: _procs :: off :: sizes :: file =>
+    match parseFile file, off.toNat?, parseSizes sizes with
+    | some f, some k, some sz =>
+      let nh := if f.header.isSome then 1 else 0
+      if sz.length ≠ f.blocks.length + nh then "bad-op" else
+      match (f.blocks.map (·.block)).mapM decodeBlock with
+      | none => "bad-op"
+      | some objss =>
+        let hdrFrames : List (OsmVerif.Model.PbfFraming.Frame Obj) := (sz.take nh).map fun (h, b) => { hlen := h, blen := b, objs := [] }
+        let frames : List (OsmVerif.Model.PbfFraming.Frame Obj) := hdrFrames ++ (objss.zip (sz.drop nh)).map fun (os, (h, b)) => { hlen := h, blen := b, objs := os }
+        let (objs, ok) := OsmVerif.Model.PbfFraming.scanCut OsmVerif.Model.PbfFraming.specConv k frames
+        let hdrOk := nh = 1 ∧ (hdrFrames.map (·.size)).sum ≤ k
+        showCut hdrOk objs ok
+    | _, _, _ => "bad-op"
+  | "dmg" :: _procs :: _cls :: pos :: file =>
+    match parseFile file, pos.toNat? with
+    | some f, some pos =>
+      let nh := if f.header.isSome then 1 else 0
+      let before := (f.blocks.map (·.block)).take (pos - nh)
+      match before.mapM decodeBlock with
+      | none => "bad-op"
+      | some objss => showCut (nh = 1 ∧ pos ≥ 1) objss.flatten false
+    | _, _ => "bad-op"
   | _ => "bad-op"
 
 end OsmVerif.Oracle.Pbf
